@@ -269,7 +269,8 @@ impl Ctx {
             self.id,
             crate::fnv64(signature.as_bytes())
         );
-        let path = PathBuf::from(format!("{VERIF_ROOT}/replay/{name}"));
+        let replay_dir = std::env::var("VH_REPLAY_DIR").unwrap_or_else(|_| format!("{VERIF_ROOT}/replay"));
+        let path = PathBuf::from(format!("{replay_dir}/{name}"));
         let doc = json!({
             "property": self.id,
             "signature": signature,
@@ -278,7 +279,7 @@ impl Ctx {
             "tier": self.tier_name(),
             "detail": detail,
         });
-        let _ = std::fs::create_dir_all(format!("{VERIF_ROOT}/replay"));
+        let _ = std::fs::create_dir_all(&replay_dir);
         let _ = std::fs::write(&path, serde_json::to_vec_pretty(&doc).unwrap_or_default());
         g.violations.push(Violation {
             signature: signature.to_string(),
